@@ -127,6 +127,10 @@ def gen_program(rng, cyclic=True, negation=True, ads=True, evidence=True, max_le
     if ads and rng.random() < 0.6:
         nh = rng.choice([2, 3, 3, 4])
         ps = [F(rng.randint(1, 3 if nh < 4 else 2), 10) for _ in range(nh)]
+        if sum(p.numerator * (10 // p.denominator) for p in ps) % 3 == 0:
+            # an annotated disjunction WITHOUT a "none of the heads" choice: the probabilities sum to exactly 1
+            # (decided from the numbers already drawn, so that the rest of the program does not change)
+            ps[-1] = 1 - sum(ps[:-1])
         heads = []
         for i in range(nh):
             name = "h%d" % i
